@@ -520,3 +520,62 @@ func H_C03_set_chain() {
 	vCheckAgainstRef("C03 Set chain", err, r)
 	vReach("end")
 }
+
+// ---- round 4 ----
+
+// a slice of maps in which every element lacks a different subset of the required keys: each element reports
+// exactly its own missing keys (presence of each key in each element is nondeterministic)
+func H_C03_map_slice_missing() {
+	rm := NewRule().Set("k1", "required").Set("k2", "required|need k2").Set("k3", "required,r1").Set("k4", "r2")
+	var ms []map[string]string
+	for i := 0; i < 3; i++ {
+		m := map[string]string{}
+		for _, k := range []string{"k1", "k2", "k3"} {
+			if vndBool(k + "in" + vNum(i)) {
+				m[k] = "v"
+			}
+		}
+		ms = append(ms, m)
+	}
+	vULog = nil
+	err := MapFn(ms, rm, Name2FnMap{"r1": vURule("r1"), "r2": vURule("r2")})
+	r := vNewRef()
+	r.local = map[string]bool{"r1": true, "r2": true}
+	vRefMap(r, ms, rm)
+	vCheckUnordered("C03 Map([]map) with different keys missing per element", err, r)
+	vReach("end")
+}
+
+// the same map validated twice, and two different maps one after the other, with one rule set
+func H_C03_map_missing_sequence() {
+	rm := NewRule().Set("k1", "required").Set("k2", "required").Set("k3", "required")
+	for i := 0; i < 2; i++ {
+		m := map[string]string{}
+		for _, k := range []string{"k1", "k2", "k3"} {
+			if vndBool(k + "in" + vNum(i)) {
+				m[k] = "v"
+			}
+		}
+		vULog = nil
+		err := Map(m, rm)
+		r := vNewRef()
+		vRefMap(r, m, rm)
+		vCheckUnordered("C03 Map, call "+vNum(i)+" with one rule set", err, r)
+	}
+	vReach("end")
+}
+
+// a query parameter whose name needs encoding itself: "a b" written a+b, a%20b or %61+b is present
+func H_C03_url_encoded_name() {
+	rm := NewRule().Set("a b", "required,r1").Set("c", "required")
+	v := vPlainText("v", 1)
+	name := []string{"a+b", "a%20b", "%61+b", "a b"}[vndChoice("name", 4)]
+	switch vndChoice("shape", 3) {
+	case 0:
+		vRunUrl("C03 Url encoded name", "h?"+name+"="+v+"&c=1", []string{"a b", "c"}, []string{v, "1"}, rm)
+	case 1:
+		vRunUrl("C03 Url encoded name, second", "h?c=1&"+name+"="+v, []string{"c", "a b"}, []string{"1", v}, rm)
+	case 2:
+		vRunUrl("C03 Url encoded name only", "h?"+name+"="+v, []string{"a b"}, []string{v}, rm)
+	}
+}
